@@ -15,16 +15,23 @@ PROPS = {
                       "best-effort — and after a power loss at that point, every target holds its complete old or a complete new content; "
                       "untouched files stay untouched; witnesses show the in-place fs::write protocol and the protocol without fsync do "
                       "not have the property. Tie: on every run the file syscalls of two strace'd executions of the real `luafmt --write` "
-                      "(unfaulted, and with RLIMIT_FSIZE hitting the middle file) are regenerated into Lean and checked by kernel "
-                      "evaluation to be literally the modelled protocol / its failure behaviour; additionally every faulted run of the "
+                      "(unfaulted, and with RLIMIT_FSIZE hitting the largest file) over a directory with file-system variety (second "
+                      "hard link, symlinked file and directory, read-only file and directory, CRLF, empty) are regenerated into Lean "
+                      "and checked by kernel evaluation to be literally the modelled protocol / its failure behaviour, and — per "
+                      "target file — that no pre-existing path is ever truncated or written in place and each modified file is reached "
+                      "by exactly one rename from a fresh temp file; additionally every faulted run of the "
                       "search is replayed through the model (observed syscalls -> predicted directory = directory on disk). "
                       "Search: SIGKILL on entry of every file syscall, errno injection into every call of openat/write/fsync/fchmod/"
                       "close/rename/unlink, RLIMIT_FSIZE sweeps with SIGXFSZ ignored and default, on the real binary.",
         "level_note": "Trusted: Lean kernel; strace's report of syscalls, arguments and return values; the python trace parser and "
                       "fault driver; the OS semantics assumed by the model (rename atomic, fsync makes the file's data durable, an "
                       "unsynced file degrades to a prefix on power loss — power loss itself is not exercised on the real system, only "
-                      "process kill and write failures are). Not modelled: permissions/ownership/xattrs of the replaced file, "
-                      "symlinked targets (the code canonicalises first), directory fsync (rename durability is not needed for "
+                      "process kill and write failures are). Hard links: paths are independent in the model, and that is what the fixed "
+                      "code does — the rename gives the formatted name a new inode, the other link name keeps the complete old content "
+                      "(link broken; both names hold complete content at every crash point, which is what the oracle checks on the "
+                      "real file system). The checks run as root, so read-only files/directories do not make syscalls fail by "
+                      "themselves; such failures are produced by errno injection. Not modelled: permissions/ownership/xattrs of the "
+                      "replaced file, symlinks as objects (the code canonicalises first; the oracle checks they stay symlinks), directory fsync (rename durability is not needed for "
                       "old-or-new), the `--output FILE` path (not in-place).",
         "trusted_base": ["strace 6.1 syscall log (arguments, return values, fault injection) for the tie and the fault search",
                          "OS assumptions of the Fs model: rename(2) atomic; fsync(2) durable; unsynced data degrades to a prefix"],
